@@ -31,7 +31,7 @@ def run(pid, tier, seed, replay=None):
 
     # B/C: the same logical forests constructed three ways in separate processes (fresh hash seeds, fresh Refs)
     count = 250 if quick else 6000
-    variants = [0, 1, 2, 4, 5] if not quick else [0, 1, 2]
+    variants = [0, 1, 2, 3, 4, 5, 6, 7] if not quick else [0, 1, 2, 3]
     paths = []
 
     def one(v):
@@ -69,7 +69,13 @@ def run(pid, tier, seed, replay=None):
             fails += fl
     for c in fails:
         if c["clause"] == "logical-content-differs":
-            raise ToolError("harness constructions of one case are not the same logical forest: %s" % c)
+            # the constructions are sequences of insert / transfer / transfer_within / destroy calls that must all
+            # build the forest of the case; if the DOMs differ before any serializer ran, a DOM operation changed
+            # content (e.g. regenerated a UniqueId that did not collide) - the output is then not a function of
+            # the logical tree either
+            rep.violation("construction-changes-content", lambda c=c: {"case": c, "event": find_event(c["part"], c["ep"])},
+                          "%s: two constructions of one logical forest gave different DOM content" % c["ep"])
+            continue
         what = (c.get("issues") or [[0, "", "", ""]])[0][2]
         rep.violation("%s|%s" % (c["clause"], what), lambda c=c: {"case": c, "event": find_event(c["part"], c["ep"])},
                       "%s: %s (%s)" % (c["ep"], c["clause"], what))
